@@ -57,6 +57,15 @@ class Side:
         async def send_peer_messages(username, *messages, raise_on_error=True):
             for m in messages:
                 self.sent_peer.append((username, m))
+            # the message (P) connection to the peer may be broken or slow as well
+            if self.msg_mode == 'raise':
+                from aioslsk.exceptions import ConnectionWriteError
+                raise ConnectionWriteError('message connection is stale')
+            if self.msg_mode == 'peer-gone':
+                from aioslsk.exceptions import PeerConnectionError
+                raise PeerConnectionError('peer went offline')
+            if self.msg_mode == 'hang':
+                await self.loop.create_future()
 
         def create_peer_response_future(peer, message_class, fields=None):
             from aioslsk.protocol.messages import PeerTransferReply
@@ -79,6 +88,7 @@ class Side:
         net.create_peer_connection = create_peer_connection
         net.queue_server_messages = queue_server_messages
         self.up_limiter = None
+        self.msg_mode = None
 
     def close(self):
         self.W.close()
@@ -213,9 +223,91 @@ class Side:
                 out.append(bool(m.allowed))
         return out
 
+    def download_double(self, tr, src: bytes, plan: dict):
+        """A peer that sends TWO PeerTransferRequest messages (tickets t1, t2) for the same download back
+        to back (one TCP segment: both handlers run without a suspension point between them) and then
+        opens a file connection for each ticket.  plan: {'first': k bytes served on connection A before
+        connection B is opened / served, 'order': 'AB' | 'BA' (which ticket's connection comes first)}.
+        Both connections serve honest bytes of ``src`` from the offset they are told.  Returns obs."""
+        from aioslsk.protocol.messages import PeerTransferRequest
+        from aioslsk.network.connection import PeerConnectionType
+        from aioslsk.events import PeerInitializedEvent
+        loop = self.loop
+        self.n += 2
+        t1, t2 = 5000 + self.n, 5001 + self.n
+        before = Path(tr.local_path).read_bytes() if tr.local_path and Path(tr.local_path).exists() else b''
+        pc, pep = self.conn(PeerConnectionType.PEER)
+        m1 = PeerTransferRequest.Request(1, t1, tr.remote_path, filesize=len(src))
+        m2 = PeerTransferRequest.Request(1, t2, tr.remote_path, filesize=len(src))
+        tasks = []
+
+        async def both():
+            await self.mgr._on_peer_transfer_request(m1, pc)
+            tasks.append(tr._transfer_task)
+            await self.mgr._on_peer_transfer_request(m2, pc)
+            tasks.append(tr._transfer_task)
+        self.W.run(both())
+        loop.run_ready(60)
+        conns = {}
+        offsets = {}
+
+        def open_conn(ticket):
+            fc, fep = self.conn(PeerConnectionType.FILE)
+            self.client.network._finalize_peer_connection(fc)
+            fep.feed(struct.pack('<I', ticket))
+            init = loop.create_task(self.mgr._on_peer_initialized(PeerInitializedEvent(fc, requested=False)))
+            loop.run_ready(60)
+            conns[ticket] = (fc, fep, init)
+            w = bytes(fep.written)
+            offsets[ticket] = struct.unpack('<Q', w)[0] if len(w) == 8 else None
+
+        def serve(ticket, k):
+            """k more honest bytes on that connection (None: everything that is left)"""
+            fc, fep, _ = conns[ticket]
+            off = offsets[ticket]
+            if off is None or fep.client_closed:
+                return 0
+            pos = sent.get(ticket, off)
+            data = src[pos:] if k is None else src[pos:pos + k]
+            if data:
+                fep.feed(data)
+                sent[ticket] = pos + len(data)
+                loop.run_for(5)
+            return len(data)
+        sent = {}
+        a, b = (t1, t2) if plan.get('order', 'AB') == 'AB' else (t2, t1)
+        open_conn(a)
+        if plan.get('open_b_first'):
+            open_conn(b)
+        serve(a, plan.get('first', 0))
+        if b not in conns:
+            open_conn(b)
+        serve(b, None)
+        serve(a, None)
+        loop.run_for(400)
+        for t in (a, b):
+            fc, fep, init = conns[t]
+            if not fep.client_closed:
+                fep.feed_eof()
+        loop.run_for(400)
+        pending = [t for t in tasks if t is not None and not t.done()]
+        for t in pending:
+            t.cancel()
+        for _, _, init in conns.values():
+            if not init.done():
+                init.cancel()
+        loop.run_ready(20)
+        for t in (t1, t2):
+            self.mgr._file_connection_futures.pop(t, None)
+        after = Path(tr.local_path).read_bytes() if tr.local_path and Path(tr.local_path).exists() else b''
+        return dict(state=tr.state.VALUE.name, fail_reason=tr.fail_reason, before=before, after=after, bt=tr.bytes_transfered,
+                    offsets=[offsets.get(t1), offsets.get(t2)], started=[t is not None for t in tasks],
+                    distinct_tasks=len({id(t) for t in tasks if t is not None}), pending=len(pending),
+                    replies=self.reply_allowed(bytes(pep.written)))
+
     # -- uploads ------------------------------------------------------------------------------
     def upload_attempt(self, src: bytes, filesize: int, offset_bytes: bytes | None, kbps=0, cut=None,
-                       peer_closes=True, close_kind='eof', osplit=None):
+                       peer_closes=True, close_kind='eof', osplit=None, msg_mode=None):
         """One upload attempt.  offset_bytes: what the peer sends as offset (8 bytes; fewer or None:
         the connection ends before the offset is complete).  cut=k: the first send that starts when
         >= k file bytes were written fails.  Returns the observation dict."""
@@ -240,6 +332,7 @@ class Side:
         self.up_limiter = self.limiter(kbps)
         self.sent_peer.clear()
         state = {'file': 0}
+        arm = {'mode': msg_mode}
 
         def on_data(d):
             total = len(fep.written) - 4
@@ -248,6 +341,7 @@ class Side:
         fep.on_data = on_data
         task = loop.create_task(self.mgr._initialize_upload(tr))
         loop.run_ready(60)
+        self.msg_mode = msg_mode      # only the messages after the negotiation are affected
         if offset_bytes:
             if osplit:
                 # the offset arrives in two TCP segments
@@ -275,6 +369,7 @@ class Side:
             e = task.exception()
             exc = type(e).__name__ if e else None
         st = tr.state.VALUE.name
+        self.msg_mode = None
         if not task.done():
             task.cancel()
             loop.run_ready(20)
